@@ -47,7 +47,7 @@ def nontrivial_key(op, obs):
         return ("probe", f.get("ab"), f.get("ba"), f.get("cura"), f.get("curb"))
     if k in ("rcycle", "rdeliver"):
         rot = obs.rsplit("rot=", 1)[-1]
-        return (k, rot.split(":")[-1] if rot != "-" else "-", obs.startswith("msg=-"), min(int(rot.split(":")[0]) if rot != "-" else 0, 12))
+        return (k, rot.split(":")[1] if rot != "-" else "-", obs.startswith("msg=-"), min(int(rot.split(":")[0]) if rot != "-" else 0, 12))
     return None
 
 
